@@ -55,6 +55,76 @@ theorem C37_go_token_values :
 theorem C37_specTokens_consistent :
     specTokens.all (fun tc => specCls tc.1 == some tc.2) = true := by decide
 
+/-! ## The header specification covers go/ast
+
+`hdrTable` is hand-written; this theorem ties it to the struct declarations of the toolchain's
+go/ast (regenerated): every field whose static type is a node type (`Expr`, `*Ident`, `[]Expr`,
+`*FieldList`, …) or a scalar shown in source (`string`, `token.Token`, `ChanDir`, `bool` other
+than `Incomplete`) must be a header field of the matching role, positions may only be flags,
+comments/bodies/objects are never header fields, and every expression/spec/declaration kind of
+go/ast except `Bad*` is a supported kind.  (A child field added to go/ast, as `TypeParams` was,
+makes this fail until the specification — and then the converters — know it.) -/
+
+inductive Role where
+  | must (s : FSpec) | posOnly | never | boolAtom | unknown
+
+def roleOfType : String → Role
+  | "Expr" => .must (.sub .expr)
+  | "*Ident" => .must (.sub .ident)
+  | "*BasicLit" => .must (.sub .lit)
+  | "*FieldList" => .must (.sub .fieldList)
+  | "*FuncType" => .must (.sub .funcType)
+  | "[]Expr" => .must (.subs .expr)
+  | "[]*Ident" => .must (.subs .ident)
+  | "[]*Field" => .must (.subs .field)
+  | "[]Decl" => .must (.subs .decl)
+  | "[]Spec" => .must .specs
+  | "string" => .must .atom
+  | "token.Token" => .must .atom
+  | "ChanDir" => .must .atom
+  | "bool" => .boolAtom
+  | "token.Pos" => .posOnly
+  | "*CommentGroup" => .never
+  | "*BlockStmt" => .never
+  | "*Object" => .never
+  | _ => .unknown
+
+def fieldCovered (k f ty : String) : Bool :=
+  let s := specOf (hdrFields k) f
+  match roleOfType ty with
+  | .must r => s == some r
+  | .posOnly => s == none || s == some .flag
+  | .never => s == none
+  | .boolAtom => (f == "Incomplete" && s == none) || s == some .atom
+  | .unknown => false
+
+def structOf (k : String) : Option (List (String × String)) :=
+  match List.find? (fun e => e.1 == k) goAstStructs with
+  | some e => some e.2
+  | none => none
+
+def kindCovered (k : String) : Bool :=
+  match structOf k with
+  | some fs => fs.all (fun e => fieldCovered k e.1 e.2) &&
+      (hdrFields k).all (fun h => fs.any (fun e => e.1 == h.1))
+  | none => false
+
+def fileCovered : Bool :=
+  match structOf "File" with
+  | some fs => fs.contains ("Name", "*Ident") && fs.contains ("Decls", "[]Decl") &&
+      hdrFields "File" == [("Name", .sub .ident), ("Decls", .subs .decl)]
+  | none => false
+
+theorem C37_spec_covers_goast :
+    ((exprKinds ++ ["ImportSpec", "TypeSpec", "ValueSpec", "GenDecl", "FuncDecl", "Field", "FieldList"]).all
+        kindCovered = true) ∧ fileCovered = true ∧
+    goAstExprKinds.all (fun k => k == "BadExpr" || exprKinds.contains k) = true ∧
+    exprKinds.all (fun k => goAstExprKinds.contains k) = true ∧
+    goAstSpecKinds = ["ImportSpec", "TypeSpec", "ValueSpec"] ∧
+    goAstDeclKinds = ["BadDecl", "FuncDecl", "GenDecl"] ∧
+    hdrTable.all (fun e => e.1 == "File" || kindCovered e.1) = true := by
+  refine ⟨?_, ?_, ?_, ?_, ?_, ?_, ?_⟩ <;> decide +kernel
+
 /-! ## The obligation is not vacuous: it rejects tables that lose a construct -/
 
 /-- remove the conversion of destination field `d` from every case of every function. -/
